@@ -73,7 +73,35 @@ well-formed transaction followed by anything it returns exactly the encoding's l
 theorem scanner_agrees (T : Tables) (hT : C02.TablesOK T = true) (t : Tx) (h : C01.WFTx T t = true)
     (bs rest : Bytes) (hb : t.toBytes T t.hasSegwit = .ok bs) :
     txLength (bs ++ rest) = .ok bs.length := by
-  sorry
+  rw [(C01.tx_spec T hT t h).2 t.hasSegwit] at hb
+  obtain rfl := Except.ok.inj hb
+  obtain ⟨hv, hl, hn1, hn, hm, hins, houts, hw⟩ := C01.wfTx_elim T t h
+  apply BlockLemmas.txLength_encodeTx
+  · exact hv
+  · exact hl
+  · simpa [C01.rawTx] using hn1
+  · simp only [C01.rawTx, List.length_map]; omega
+  · simp only [C01.rawTx, List.length_map]; omega
+  · intro i hi
+    simp only [C01.rawTx, List.mem_map] at hi
+    obtain ⟨j, hj, rfl⟩ := hi
+    obtain ⟨h32, h4, _, _, _⟩ := C01.wfIn_elim T j (hins j hj)
+    have := (C01.in_spec T hT j (hins j hj)).2.2
+    refine ⟨by simp [C01.rawIn, h32], ?_, h4⟩
+    simp only [C01.rawIn]; omega
+  · intro o ho
+    simp only [C01.rawTx, List.mem_map] at ho
+    obtain ⟨j, hj, rfl⟩ := ho
+    have := (C01.out_spec T hT j (houts j hj)).2.2
+    simp only [C01.rawOut]; omega
+  · intro hseg
+    obtain ⟨hwl, hws⟩ := hw hseg
+    refine ⟨by simp [C01.rawTx, hwl], ?_⟩
+    intro st hst
+    obtain ⟨a, b⟩ := hws st hst
+    refine ⟨by omega, fun it hit => ?_⟩
+    have := b it hit
+    omega
 
 /-- parsing a framed block returns every transaction, each identical to parsing its own byte slice -/
 theorem block_parse (T : Tables) (hT : C02.TablesOK T = true) (magic header : Bytes) (size : Nat) (txs : List Tx)
@@ -83,6 +111,20 @@ theorem block_parse (T : Tables) (hT : C02.TablesOK T = true) (magic header : By
     ∃ hd parsed, Header.parse header = .ok hd ∧ encs.mapM (Tx.parse T) = .ok parsed ∧
       Block.parse T (frameBlock magic size header encs) =
         .ok { magic := magic, size := size, header := hd, count := txs.length, txs := parsed } := by
-  sorry
+  obtain ⟨hd, hhd, _⟩ := header_roundtrip header hh
+  obtain ⟨hlen, hmem⟩ := BlockLemmas.mapM_ok_elim _ txs encs he
+  have hpe : ∀ e ∈ encs, ∃ t', Tx.parse T e = .ok t' := by
+    intro e hee
+    obtain ⟨t, ht, hte⟩ := hmem e hee
+    obtain ⟨t', h1, _⟩ := C01.reencode T hT t (hw t ht) e hte
+    exact ⟨t', h1⟩
+  obtain ⟨parsed, hparsed⟩ := BlockLemmas.mapM_ok_of_forall (Tx.parse T) encs hpe
+  have hsc : ∀ e ∈ encs, ∀ rest, txLength (e ++ rest) = .ok e.length := by
+    intro e hee rest
+    obtain ⟨t, ht, hte⟩ := hmem e hee
+    exact scanner_agrees T hT t (hw t ht) e rest hte
+  refine ⟨hd, parsed, hhd, hparsed, ?_⟩
+  rw [← hlen]
+  exact BlockLemmas.block_parse_frame T magic header size encs hm hh hs (by omega) hd hhd hsc parsed hparsed
 
 end C15
